@@ -93,7 +93,7 @@ both_families! {
 		guard(|| pb.normalize()).map_err(|pi| Failure::new(format!("panic-normalize:{}", pi.loc), format!("{ctx} {:?}: PathBuf::normalize() panicked: {}", text, pi.msg)))?;
 		let t1 = pb.as_str().to_string();
 		ensure!(Path::new(t1.as_str()).is_ok(), "normalize-invalid", "{ctx} {:?}: PathBuf::normalize() leaves {:?}, not a valid path", text, t1);
-		ensure!(pb.is_absolute() == abs && norm::accept_textual(&t1, abs, &n), "normalize-text", "{ctx} {:?}: PathBuf::normalize() leaves {:?}, expected a rendering of N = {:?} (absolute: {})", text, t1, n, abs);
+		ensure!(pb.is_absolute() == abs && norm::accept_strict(&t1, abs, &n), "normalize-text", "{ctx} {:?}: PathBuf::normalize() leaves {:?}, expected a rendering of N = {:?} (absolute: {})", text, t1, n, abs);
 		let mut pb2 = PathBuf::new(text.into()).unwrap();
 		{
 			let mut h = pb2.as_path_mut();
@@ -103,12 +103,24 @@ both_families! {
 			h.normalize();
 			let v2 = (*h).as_str().to_string();
 			ensure!(v2 == t1, "normalize-not-idempotent", "{ctx} {:?}: normalize() twice through one handle gives {:?} then {:?}", text, t1, v2);
+			// normalisation must also work on a handle that has normalised before: push a dot
+			// segment through the same handle and normalise again
+			for dot in [".", ".."] {
+				let before = (*h).as_str().to_string();
+				h.push(Segment::new(dot).unwrap());
+				let pushed = (*h).as_str().to_string();
+				h.normalize();
+				let after = (*h).as_str().to_string();
+				let (pa, ps) = segs(&pushed);
+				let exp = norm::n(pa, &ps);
+				ensure!(norm::accept_strict(&after, pa, &exp), "normalize-after-edit-on-same-handle", "{ctx} {:?}: normalize, push({:?}) (path {:?} -> {:?}), normalize through ONE handle leaves {:?}, expected a rendering of {:?}", text, dot, before, pushed, after, exp);
+			}
 		}
 		pb.normalize();
 		ensure!(pb.as_str() == t1, "normalize-not-idempotent", "{ctx} {:?}: normalize() gives {:?}, again {:?}", text, t1, pb.as_str());
 		// (5) the three implementations agree through the oracle: segments of the in-place result == N
 		let (_, s1) = segs(&t1);
-		ensure!(norm::unshield(&s1) == norm::unshield(&n) || (n == vec![String::new()] && s1.is_empty()), "normalize-vs-segments", "{ctx} {:?}: in-place result {:?} has segments {:?}, normalized_segments() gives {:?}", text, t1, s1, n);
+		ensure!(norm::unshield(&s1) == norm::unshield(&n), "normalize-vs-segments", "{ctx} {:?}: in-place result {:?} has segments {:?}, normalized_segments() gives {:?}", text, t1, s1, n);
 		cx.obs(9);
 		Ok(())
 	}
@@ -136,7 +148,7 @@ both_families! {
 			ensure!(c1.fragment == c0.fragment, "frame:fragment", "{:?}: normalize changed the fragment: {:?}", text, fin);
 			ensure!(c1.path == view, "embedded-handle-view", "{:?}: handle viewed {:?} after normalize but the path of {:?} is {:?}", text, view, fin, c1.path);
 			let pabs = c1.path.starts_with('/');
-			ensure!((pabs == abs || (n.is_empty() && c0.authority.is_some())) && norm::accept_textual(&c1.path, pabs, &n), "embedded-normalize-text", "{:?}: after normalize the path is {:?}, expected a rendering of N = {:?} (absolute: {})", text, c1.path, n, abs);
+			ensure!((pabs == abs || (n.is_empty() && c0.authority.is_some())) && norm::accept_strict(&c1.path, pabs, &n), "embedded-normalize-text", "{:?}: after normalize the path is {:?}, expected a rendering of N = {:?} (absolute: {})", text, c1.path, n, abs);
 			// idempotent
 			buf.path_mut().normalize();
 			ensure!(buf.as_bytes() == fin.as_bytes(), "embedded-not-idempotent", "{:?}: normalize gives {:?}, again {:?}", text, fin, String::from_utf8_lossy(buf.as_bytes()));
@@ -164,7 +176,7 @@ impl Prop for C09 {
 	const ID: &'static str = "C09";
 
 	fn rule() -> String {
-		"cases = (family, stand-alone | embedded in a full/reference buffer with/without scheme, authority, query, fragment, absolute?, segment list). Enumerated completely: every path of <= 6 segments over {a, b:c, '', '.', '..'} x {absolute, relative}, stand-alone (both families) and embedded in 's:', no prefix, and '//h' (IRI family). Random: 0-40+ segments from the pool (empty, dot, colon, pct, multi-byte; > 16 segments and > 512 bytes in a fixed share). Oracle: dot-segment model N/E (self-checked against a literal RFC 3986 5.2.4 implementation): normalized_segments() = N with exact len; normalized() is a valid, idempotent, absoluteness-preserving textual rendering of E; PathBuf::normalize / PathMut::normalize rewrite to a rendering of N, idempotent; embedded: text re-parses, the other four components are byte-identical. Non-trivial: the path contains a dot segment.".into()
+		"cases = (family, stand-alone | embedded in a full/reference buffer with/without scheme, authority, query, fragment, absolute?, segment list). Enumerated completely: every path of <= 6 segments over {a, b:c, '', '.', '..'} x {absolute, relative}, stand-alone (both families) and embedded in 's:', no prefix, and '//h' (IRI family). Random: 0-40+ segments from the pool (empty, dot, colon, pct, multi-byte; > 16 segments and > 512 bytes in a fixed share). Oracle: dot-segment model N/E (self-checked against a literal RFC 3986 5.2.4 implementation): normalized_segments() = N with exact len; normalized() is a valid, idempotent, absoluteness-preserving textual rendering of E; PathBuf::normalize / PathMut::normalize rewrite to a STRICT rendering of N (the segment list read back is N, modulo a shield), idempotent; embedded: text re-parses, the other four components are byte-identical. Non-trivial: the path contains a dot segment.".into()
 	}
 
 	fn cases(tier: Tier) -> u64 {
@@ -175,7 +187,7 @@ impl Prop for C09 {
 		gen::fam()
 			.prop_flat_map(|f| {
 				let o = Opt::new(f).with_nonutf8(true);
-				(embed(o), any::<bool>(), gen::segments(o)).prop_map(move |(embed, abs, segs)| Case { fam: f, embed, abs, segs })
+				(embed(o), any::<bool>(), prop_oneof![1 => gen::segments(o), 1 => gen::dotty_segments(o)]).prop_map(move |(embed, abs, segs)| Case { fam: f, embed, abs, segs })
 			})
 			.boxed()
 	}
